@@ -471,3 +471,111 @@ def target_parallel_goto():
 
 
 TARGETS["parallel_goto"] = target_parallel_goto
+
+
+def _spec_first(tables, symbols):
+    """FIRST of a symbol string over given single-symbol tables (ALSU p221), written independently."""
+    out = set()
+    for s in symbols:
+        out |= {x for x in tables[s] if x is not None}
+        if None not in tables[s]:
+            return out
+    return out | {None}
+
+
+def target_first():
+    """lr1.Grammar._first (C08: FIRST sets): for every symbol string of length 0..3 over three symbols whose FIRST tables are
+    ANY subsets of {a, b, epsilon} (exhaustive: 8^3 tables x 40 strings; _first treats all terminals alike):
+        FIRST(X1 .. Xn) = the non-epsilon members of FIRST(Xi) for the longest prefix all of whose earlier symbols are nullable,
+                          plus epsilon iff every Xi is nullable (in particular FIRST of the empty string is {epsilon})."""
+    import itertools
+    eng = pyvc.Engine()
+    eng.contract(set, lambda interp, xs=(): set(xs), "set()")
+    subsets = [frozenset(x for x, on in zip(("a", "b", None), bits) if on) for bits in itertools.product((0, 1), repeat=3)]
+    strings = [()] + [t for n in (1, 2, 3) for t in itertools.product("XYZ", repeat=n)]
+    obs, cov = [], 0
+    import time
+    t0 = time.time()
+    bad = None
+    n = 0
+    # the tables are concrete here, so the executor runs one path per case; cases are grouped into one obligation per string length
+    results = {0: [], 1: [], 2: [], 3: []}
+    for fx, fy, fz in itertools.product(subsets, repeat=3):
+        tables = {"X": set(fx), "Y": set(fy), "Z": set(fz)}
+        for s in strings:
+            if any(sym not in s for sym in ()):
+                continue
+            used = set(s)
+            # skip tables that differ only in symbols the string does not mention (same execution)
+            if ("X" not in used and fx != subsets[0]) or ("Y" not in used and fy != subsets[0]) or ("Z" not in used and fz != subsets[0]):
+                continue
+
+            def harness(c, tables=tables, s=s):
+                me = GObj("grammar", attrs={"firsts": tables})
+                c.covered = True
+                st, got = pyvc.run_body(c, "compiler.front_end.lr1.Grammar._first", [me, list(s)])
+                c.oblige("FIRST-of-a-string", isinstance(got, set) and got == _spec_first(tables, s), detail="FIRST%r over %r = %r" % (s, tables, got))
+            paths = eng.explore(harness)
+            n += 1
+            for o in pyvc.collect(paths, "Grammar._first"):
+                results[len(s)].append(o)
+    for ln, os_ in results.items():
+        badl = [o for o in os_ if o.verdict != core.PROVED]
+        if badl:
+            obs.extend(badl[:3])
+        else:
+            obs.append(core.Obligation("Grammar._first[length=%d].FIRST-of-a-string" % ln, core.PROVED, "syntactic", 0.0, detail="%d (tables, string) cases, every subset of {a, b, epsilon} per mentioned symbol" % len(os_)))
+    return obs, n
+
+
+def target_seed_firsts_round():
+    """lr1.Grammar._compute_seed_firsts (the FIRST fixed point): one round of its `while True` loop from ANY current table
+    (every combination of subsets of {a, epsilon} for two nonterminals) over a small grammar: the table grows by exactly
+    FIRST(rhs) of every production into its lhs (one application of the monotone operator whose least fixed point FIRST
+    is), terminals keep their singleton, and the loop is left iff nothing was added."""
+    import itertools
+    pt = importlib.import_module("compiler.util.parser_types")
+    info = pyvc.load_function("compiler.front_end.lr1.Grammar._compute_seed_firsts")
+    loops = [n for n in info.node.body if isinstance(n, ast.While)]
+    if len(loops) != 1:
+        raise core.CheckerError("anchor mismatch: Grammar._compute_seed_firsts: expected one while loop")
+    eng = pyvc.Engine()
+    eng.contract(set, lambda interp, xs=(): set(xs), "set()")
+    prods = [pt.Production("S", ("A", "a")), pt.Production("A", ()), pt.Production("A", ("a", "A")), pt.Production("S", ("A", "A"))]
+    subsets = [frozenset(x for x, on in zip(("a", None), bits) if on) for bits in itertools.product((0, 1), repeat=2)]
+    obs, n = [], 0
+    allo = []
+    for fs_, fa in itertools.product(subsets, repeat=2):
+        tables0 = {"a": {"a"}, "S": set(fs_), "A": set(fa)}
+
+        def harness(c, tables0=tables0):
+            tables = {k: set(v) for k, v in tables0.items()}
+            me = GObj("grammar", attrs={"firsts": tables, "productions": list(prods)},
+                      methods={"_first": lambda interp, obj, symbols: _spec_first(tables, list(symbols))})
+            it = pyvc.Interp(c, info)
+            it.env = {"self": me}
+            c.covered = True
+            left = False
+            try:
+                it.block(loops[0].body)
+            except pyvc._Break:
+                left = True
+            want = {k: set(v) for k, v in tables0.items()}
+            for p in prods:
+                want[p.lhs] |= _spec_first(tables0, p.rhs)
+            c.oblige("round-adds-exactly-FIRST(rhs)-of-every-production", tables == want, detail="%r -> %r, expected %r" % (tables0, tables, want))
+            c.oblige("loop-is-left-iff-nothing-was-added", left == (want == tables0))
+        for o in pyvc.collect(eng.explore(harness), "Grammar._compute_seed_firsts.round"):
+            allo.append(o)
+        n += 1
+    bad = [o for o in allo if o.verdict != core.PROVED]
+    if bad:
+        obs.extend(bad[:4])
+    else:
+        for nm in ("round-adds-exactly-FIRST(rhs)-of-every-production", "loop-is-left-iff-nothing-was-added"):
+            obs.append(core.Obligation("Grammar._compute_seed_firsts.round." + nm, core.PROVED, "syntactic", 0.0, detail="%d starting tables" % n))
+    return obs, n
+
+
+TARGETS["first"] = target_first
+TARGETS["seed_firsts_round"] = target_seed_firsts_round
